@@ -11,6 +11,7 @@
 //	c09-error   a zero-length / unregistered-protocol segment did not end the connection with an error
 //	            (the wrong-direction clause is C17's: reported as an observation of class stop)
 //	c09-route   a segment reached a receiver the specification does not name
+//	c09-deliver a segment for a registered receiver ended the connection instead of being delivered
 //	gate, stop, reg, deliver   life-cycle clauses outside the listed properties
 package main
 
@@ -256,6 +257,10 @@ func replay(b *behaviour) (clause, desc string) {
 				// C09: such a segment closes the connection with an error - it did not (whatever the
 				// error's wording is, a connection that ended with one satisfies the clause)
 				cl = "c09-error"
+			case opened && want.Err == "none" && !want.Done && o.Op == "Seg" && (got.Err != "none" || got.Done):
+				// C09: a segment addressed to a receiver that IS registered for its protocol number and
+				// direction reaches that receiver - here the connection ended instead
+				cl = "c09-deliver"
 			case want.Done != got.Done || want.Err != got.Err:
 				cl = "stop"
 			case want.LastReg != got.LastReg:
